@@ -23,6 +23,15 @@ CHECKS = {
  "C05": dict(cat="exploration", ref="4/C05", tech="differential property-based testing: coroutine twin vs plain-function twin vs reference interpreter over generated async masks, yield counts and drivers",
    text="The scenarios of C01-C04 are rendered twice, once with plain functions and once with a generated subset of callbacks/guards/validators as coroutines that really yield to the loop, and driven from sync code without a loop, inside asyncio.run, and from fresh threads in turn. Both twins must satisfy the reference interpreter (phases, arguments, results, exceptions, states, phase barrier, deferred activation before the first event) and, where the unspecified in-group order cannot matter, agree step by step; no coroutine may be left un-awaited.",
    note="Trusted: reference interpreter. Coroutine guards inside boolean expressions / with several providers are excluded (finding K1); nested sends only from coroutine callbacks in mixed machines (K7)."),
+ "C10": dict(cat="exploration", ref="4/C10", tech="model-based property testing over generated histories of events and external writes, with generated state-value types and model shapes; invariants after every step",
+   text="Generated machines with state values of every kind (strings incl. '', ints incl. 0/negatives, Enum/IntEnum members, tuples, mixed hashables), models of every shape (default, plain, class-level default, property-backed, falsy list subclass, __len__ -> 0, __bool__ -> False), any state_field, any start_value, and histories interleaving events, external writes of valid and unmapped values and re-construction over the same model. After every step the model field, current_state, current_state_value, is_active (exactly one) and model identity are checked against a reference interpreter that always leaves from the stored value.",
+   note="Trusted: reference interpreter. Values are pairwise unequal and hashable by construction."),
+ "C11": dict(cat="exploration", ref="4/C11", tech="model-based property testing: histories of construct / activate / send / re-construct over a persistent model, reference interpreter decides which callbacks may run",
+   text="A persistent model outlives generated sequences of machine constructions (re-drawn options, also brand-new models with another start_value), explicit activations (any number), and events, for sync and coroutine machines. The reference interpreter requires exactly one initial enter phase under '__initial__' for a model without state (deferred to the first event for coroutine machines), zero callbacks and an untouched stored value for a model with a state, and no-op re-activation.",
+   note="Trusted: reference interpreter. The return value of activate_initial_state() is ignored."),
+ "C13": dict(cat="exploration", ref="4/C13", tech="model-based property testing over generated mixes of calling styles plus name fuzzing over dir(machine) with a before/after snapshot oracle",
+   text="Every step of a generated history is triggered through a drawn style (send, event method, item of events, item of allowed_events, trigger bound with bind_events_to, MachineMixin bound methods); all must give the reference interpreter's outcome; allowed_events/events are compared with the interpreter's lists after every step (once each, declaration order). Every attribute name of the machine and generated text is sent as an event name: TransitionNotAllowed/None and a byte-identical observable snapshot are required.",
+   note="Trusted: reference interpreter. MachineMixin needs django settings configured by the harness; the style is skipped (and counted) if django is missing."),
 }
 def main():
     checks = []
